@@ -32,4 +32,24 @@ def canonFields : List Field → String
   | .mk n t _ _ :: rest => "{\"name\":" ++ q n ++ ",\"type\":" ++ canon t ++ "}," ++ canonFields rest
 end
 
+/-! the JSON value the canonical text denotes (C13, fixed-point clause) -/
+mutual
+/-- the JSON value `json.loads(canon s)` yields -/
+def toRaw : Schema → Val
+  | .union bs => .list (toRawList bs)
+  | .prim p _ _ => .str p.name
+  | .ref n => .str n
+  | .array items => .dict [(.str "type", .str "array"), (.str "items", toRaw items)]
+  | .map values => .dict [(.str "type", .str "map"), (.str "values", toRaw values)]
+  | .enum name syms _ _ => .dict [(.str "name", .str name), (.str "type", .str "enum"), (.str "symbols", .list (syms.map .str))]
+  | .fixed name size _ _ => .dict [(.str "name", .str name), (.str "type", .str "fixed"), (.str "size", .int size)]
+  | .record name fields _ => .dict [(.str "name", .str name), (.str "type", .str "record"), (.str "fields", .list (toRawFields fields))]
+def toRawList : List Schema → List Val
+  | [] => []
+  | s :: rest => toRaw s :: toRawList rest
+def toRawFields : List Field → List Val
+  | [] => []
+  | .mk n t _ _ :: rest => .dict [(.str "name", .str n), (.str "type", toRaw t)] :: toRawFields rest
+end
+
 end Canon
